@@ -30,6 +30,7 @@
 
 import abc
 import dis
+import inspect
 import threading
 from enum import Enum
 from types import FrameType
@@ -546,7 +547,7 @@ class FunctionLocation(Location):
 
         # if method_name is not set then we need to discover it from the frame.
         if self.__function_name is None:
-            if event != "call":
+            if event != "call" or not self._is_entry(frame):
                 return False
             # is the line of the tracepoint code of the function being entered? (its own lines: the body of a
             # nested function belongs to that function) - the event line is no use, on entry it is the 'def' line
@@ -558,9 +559,35 @@ class FunctionLocation(Location):
                 return True
             return False
 
-        if event == "call" and function_name == self.__function_name:
+        if event == "call" and function_name == self.__function_name and self._is_entry(frame):
             return True
         return False
+
+    @staticmethod
+    def _is_entry(frame: FrameType) -> bool:
+        """
+        Is this 'call' event the entry of the function.
+
+        Python sends a 'call' event also each time a generator or a coroutine is resumed: that is not the function
+        being entered (a method tracepoint would act once per yield).
+
+        :param frame: the frame of the event
+        :return: False, if the frame is being resumed
+        """
+        try:
+            code = frame.f_code
+            if not code.co_flags & (inspect.CO_GENERATOR | inspect.CO_COROUTINE | inspect.CO_ASYNC_GENERATOR):
+                return True
+            last = frame.f_lasti
+            if last < 0:
+                return True
+            # from 3.11 the event comes from a RESUME instruction, its argument tells the start of the function (0)
+            # from the resumptions after a yield / await
+            if dis.opname[code.co_code[last]] == 'RESUME':
+                return code.co_code[last + 1] & 3 == 0
+            return False
+        except Exception:
+            return True
 
     @property
     def id(self):
